@@ -97,6 +97,29 @@ C04_1D(tk) ==
     inserted_row_idxs  |-> IdxWhere(RE, IsIns),
     diff_row_idxs      |-> IdxWhere(RE, IsDiff) ]
 
+C11_2D(tk) ==
+  [ row_proportion_variances    |-> Num2(VarM("row", tk, RE, CE)),
+    column_proportion_variances |-> Num2(VarM("col", tk, RE, CE)),
+    table_proportion_variances  |-> Num2(VarM("table", tk, RE, CE)),
+    row_std_dev     |-> Sqrt2(VarM("row", tk, RE, CE)),
+    column_std_dev  |-> Sqrt2(VarM("col", tk, RE, CE)),
+    table_std_dev   |-> Sqrt2(VarM("table", tk, RE, CE)),
+    row_std_err     |-> Sqrt2(SE2M("row", tk, RE, CE)),
+    column_std_err  |-> Sqrt2(SE2M("col", tk, RE, CE)),
+    table_std_err   |-> Sqrt2(SE2M("table", tk, RE, CE)),
+    row_proportions_moe    |-> SqrtS2(SE2M("row", tk, RE, CE), Z975),
+    column_proportions_moe |-> SqrtS2(SE2M("col", tk, RE, CE), Z975),
+    table_proportions_moe  |-> SqrtS2(SE2M("table", tk, RE, CE), Z975) ]
+C12_2D(tk) ==
+  LET zm == ZScoreM(tk, RE, CE) IN
+  [ zscores |-> SSqrt2(zm),
+    pvals   |-> TailNormal2(zm) ]
+
+C11_1D(tk) ==
+  [ table_proportion_stddevs |-> Sqrt1(SVarV(tk, RE)),
+    table_proportion_stderrs |-> Sqrt1(SSE2V(tk, RE)),
+    table_proportion_moes    |-> SqrtS1(SSE2V(tk, RE), Z975) ]
+
 Part(tk) ==
   CASE Family = "c01" /\ ND = 1 -> IF HasY THEN C01_1D(tk) @@ C01_1D_Y(tk) ELSE C01_1D(tk)
     [] Family = "c01" /\ ND > 1 -> IF HasY THEN C01_2D(tk) @@ C01_2D_Y(tk) ELSE C01_2D(tk)
@@ -104,6 +127,9 @@ Part(tk) ==
     [] Family = "c02" /\ ND > 1 -> C02_2D(tk)
     [] Family = "c03" /\ ND = 1 -> C03_1D(tk)
     [] Family = "c03" /\ ND > 1 -> C03_2D(tk)
+    [] Family = "c11" /\ ND = 1 -> C11_1D(tk)
+    [] Family = "c11" /\ ND > 1 -> C11_2D(tk)
+    [] Family = "c12" /\ ND > 1 -> C12_2D(tk)
     [] Family = "c04" /\ ND = 1 -> IF HasY THEN C04_1D(tk) @@ C01_1D_Y(tk) ELSE C04_1D(tk)
     [] Family = "c04" /\ ND > 1 -> IF HasY THEN C04_2D(tk) @@ C01_2D_Y(tk) ELSE C04_2D(tk)
 
